@@ -299,7 +299,7 @@ def classify_load_error(info, top, cyc, msg):
 
 
 def run(ctx):
-    for i in ctx.indices(800 if ctx.tier == 'quick' else 12000, 'random'):
+    for i in ctx.indices(4000 if ctx.tier == 'quick' else 12000, 'random'):
         one(ctx, i)
 
 
